@@ -15,7 +15,7 @@ import (
 	"verifharness/henv"
 )
 
-var c02Weights = []weighted{{"claim", 16}, {"propose", 6}, {"advance", 4}, {"delete", 3}, {"create", 1}, {"deposit", 1}}
+var c02Weights = []weighted{{"claim", 16}, {"propose", 6}, {"advance", 4}, {"delete", 3}, {"create", 1}, {"deposit", 1}, {"role", 2}}
 
 var c02RoundTrips int
 
